@@ -709,6 +709,64 @@ def check_lazy_agreement_symmetric(repo, rep, rule='R05f'):
            construct=model.norm(cmp_nodes[0]) if cmp_nodes else '')
 
 
+def check_keywords_paired_by_name(repo, rep):
+    """R05g: when two candidate mappings of one call are compared for
+    specificity, the keyword parameters are paired by keyword *name*.  The
+    two mappings list their keyword parameters each in its own overload's
+    declaration order, so pairing them by position (zip of the two views)
+    compares unrelated parameters."""
+    mod = repo.module('yaql.language.runner')
+    fi = mod.functions.get('_is_specialization_of')
+    if fi is None:
+        raise AnalysisError('anchor vanished: runner._is_specialization_of')
+    ps = fi.params()
+    kw = {}
+    for st in model.walk_shallow(fi.node):
+        if isinstance(st, ast.Assign) and isinstance(
+                st.value, ast.Name) and st.value.id in ps and isinstance(
+                st.targets[0], ast.Tuple) and len(
+                st.targets[0].elts) == 2 and isinstance(
+                st.targets[0].elts[1], ast.Name):
+            kw[st.targets[0].elts[1].id] = st.value.id
+
+    def mentions(e):
+        out = set()
+        for x in ast.walk(e):
+            if isinstance(x, ast.Name) and x.id in kw:
+                out.add(x.id)
+            elif isinstance(x, ast.Subscript) and isinstance(
+                    x.value, ast.Name) and x.value.id in ps and \
+                    isinstance(x.slice, ast.Constant) and \
+                    x.slice.value == 1:
+                out.add('%s[1]' % x.value.id)
+        return out
+    if not kw and not any('[1]' in m for m in mentions(fi.node)):
+        raise AnalysisError('anchor vanished: the keyword component of the '
+                            'two mappings in _is_specialization_of')
+    bad = []
+    for c in model.calls_in(fi.node):
+        d = repo.resolve(mod, c.func, model.scope_locals(fi))
+        if d in ('builtins.zip', 'itertools.zip_longest', 'builtins.map'):
+            if len(mentions(c)) >= 2:
+                bad.append(c)
+    keyed = [x for x in ast.walk(fi.node)
+             if (isinstance(x, ast.Subscript) and mentions(x.value) and
+                 not isinstance(x.slice, ast.Constant)) or
+             (isinstance(x, ast.Call) and isinstance(
+                 x.func, ast.Attribute) and x.func.attr == 'get' and
+              mentions(x.func.value))]
+    rep.ob('R05g', fi.key + '/keywords-paired-by-name',
+           not bad and bool(keyed),
+           'the keyword parameters of the two mappings must be paired by '
+           'keyword name (kwargs2[key] for key in kwargs1); `%s` pairs them '
+           'by position, and each mapping lists them in its own overload\'s '
+           'declaration order: a more specific overload is then missed or '
+           'an unrelated pair decides' % (
+               model.norm(bad[0]) if bad else 'no keyed lookup found'),
+           loc=mod.loc(bad[0] if bad else fi.node),
+           construct=model.norm(bad[0]) if bad else '')
+
+
 def run(repo, rep):
     rep.rule('R05a', 'ERROR-KIND: Function resolution errors are raised only '
              'on the no-receiver side of a `receiver is NO_VALUE` test, '
@@ -724,6 +782,8 @@ def run(repo, rep):
              'the loop over layers is left')
     rep.rule('R05e', 'ONLY-ARGUMENT-ERRORS-EXCLUDE: get_delegate is called '
              'under a handler for ArgumentException only')
+    rep.rule('R05g', 'KEYWORDS-PAIRED-BY-NAME: the specificity comparison '
+             'pairs keyword parameters of two mappings by keyword name')
     rep.rule('R05f', 'LAZINESS-ACROSS-LAYERS: the agreed lazy set is fixed '
              'by the first candidate of any layer')
     rep.rule('R11a', 'see C11: eager arguments are evaluated in one sweep '
@@ -754,6 +814,7 @@ def run(repo, rep):
     n2 = check_type_checks(repo, rep)
     n3 = check_first_layer_wins(repo, rep)
     check_lazy_across_layers(repo, rep)
+    check_keywords_paired_by_name(repo, rep)
     check_lazy_agreement_symmetric(repo, rep)
     from sa.rules import c11, c12, c17
     c11.check_r11a(repo, rep)
